@@ -30,6 +30,8 @@ def canon(v, ordered_ctx=True):
         return ("c", v[1], v[2], v[3])
     if v[0] == "s":
         return ("s", v[1], v[2])
+    if v[0] == "x":
+        return v
     if v[0] == "q":
         items = [canon(x) for x in v[1]]
         if not v[3]:
@@ -112,6 +114,8 @@ def strip(v):
         return ("s", v[1])
     if v[0] == "q":
         return ("q", tuple(sorted((strip(x) for x in v[1]), key=repr)))
+    if v[0] == "x":
+        return ("x", v[1])
     return ("f",)
 
 
